@@ -16,7 +16,6 @@ This module implements common shared matrix decompositions that are
 used to perform gate decompositions.
 """
 
-from itertools import groupby
 from collections import defaultdict
 
 import numpy as np
@@ -70,10 +69,15 @@ def takagi(N, tol=1e-13, rounding=13):
     w = np.transpose(np.conjugate(ws))
     rl = np.round(l, rounding)
 
-    # Generate list with degenerancies
+    # Generate list with degenerancies: consecutive singular values closer than the rounding
+    # precision belong to one group (comparing the rounded values would split a degenerate
+    # value that happens to sit on a rounding boundary)
     result = []
-    for k, g in groupby(rl):
-        result.append(list(g))
+    for ind, val in enumerate(l):
+        if ind > 0 and abs(l[ind - 1] - val) < 10.0 ** (-rounding):
+            result[-1].append(val)
+        else:
+            result.append([val])
 
     # Generate lists containing the columns that correspond to degenerancies
     kk = 0
@@ -1049,8 +1053,12 @@ def bloch_messiah(S, tol=1e-10, rounding=9):
 
         # Identifying degenerate subspaces
         result = []
-        for _k, g in groupby(np.round(np.diag(st), rounding)[:n]):
-            result.append(list(g))
+        svals = np.diag(st)[:n]
+        for ind, val in enumerate(svals):
+            if ind > 0 and abs(svals[ind - 1] - val) < 10.0 ** (-rounding):
+                result[-1].append(val)
+            else:
+                result.append([val])
 
         stop_is = list(np.cumsum([len(res) for res in result]))
         start_is = [0] + stop_is[:-1]
